@@ -130,7 +130,8 @@ def connect_pair(service_a, service_b, config_a=None, config_b=None, compress=Tr
                 # something other than EOFError left this side's serving: its serving thread (serve_all / the waiting thread) would die
                 # with it and serve_all's `finally` would close - it must NOT travel on through the OTHER side's frames of this single
                 # stack as if it had been delivered. Harness-level exceptions (watchdogs, Ctrl-C) pass.
-                if type(e).__name__ in ("Hang", "Abort") or isinstance(e, (KeyboardInterrupt, MemoryError)) and not getattr(e, "_remote_tb", None) and type(e) in (KeyboardInterrupt, MemoryError):
+                harness_level = (type(e).__module__, type(e).__name__) in (("harness.common", "Hang"), ("harness.common", "StopEarly"), ("harness.vsched", "Abort"))
+                if harness_level or (type(e) in (KeyboardInterrupt, MemoryError) and not getattr(e, "_remote_tb", None)):
                     raise
                 crashes.append((conn, e))
                 try:
